@@ -5,6 +5,8 @@ import select
 import signal
 from typing import List, Optional, Tuple  # pylint: disable=unused-import
 
+from conductor.errors.signal import raise_if_abort_requested
+
 
 class SigchldHelper:
     _Instance: "Optional[SigchldHelper]" = None
@@ -43,7 +45,7 @@ class SigchldHelper:
         # a plain blocking `read()` would never return. Waiting with a timeout
         # gives the handler a chance to run.
         while len(select.select([self._read_pipe], [], [], 0.05)[0]) == 0:
-            pass
+            raise_if_abort_requested()
         _ = os.read(self._read_pipe, 1)
         return self._extract_any()
 
